@@ -10,7 +10,7 @@
 From Coq Require Import ZArith List Bool Lia String.
 Import ListNotations.
 From DDP Require Import Lang.Syntax Lang.F64 Lang.RefSem Lang.Prec Lang.PrecProofs Lang.OpsCover Gen.Operators
-  Lower.Ops Lower.OpsProofs Lower.ListEq Lower.ForLoop.
+  Lower.Ops Lower.OpsProofs Lower.ListEq Lower.ForLoop Lower.Control Lower.ControlRules.
 Open Scope Z_scope.
 
 (* (a) precedence and associativity as written: the ladder parser inverts the minimal-parentheses renderer
@@ -34,6 +34,22 @@ Print Assumptions C01_op_lowering_correct.
 Example C01_op_lowering_nonvacuous :
   wf (VB 200) /\ wf (VK two_f) /\ scalar_binop BDiv = true /\
   RefSem.bin_op (fun _ _ => 0) (fun _ => 0) BDiv (VB 200) (VK two_f) = ROk (VK (f_of_Z 100)).
+Proof. repeat split; try (unfold wf, min64, max64; lia); vm_compute; reflexivity. Qed.
+
+(* x modulo 0 is a Laufzeitfehler in RefSem and in the emitted code (explicit zero test, 78c0539); together with
+   C01_op_lowering_correct (which now also covers the smallest Zahl modulo -1, shift counts outside 0..width-1 and
+   saturating conversions - no guard is left on scalar operators) *)
+Theorem C01_modulo_zero_lowering_correct :
+  forall (pow : Z -> Z -> Z) (log10 : Z -> Z) (a b : value),
+    wf a -> wf b -> RefSem.bin_op pow log10 BMod a b = RErr ->
+    Ops.lower_bin pow log10 BMod (repr a) (repr b) = LRtErr.
+Proof. exact mod_zero_lowering_correct. Qed.
+Print Assumptions C01_modulo_zero_lowering_correct.
+
+Example C01_modulo_zero_nonvacuous :
+  wf (VZ 7) /\ wf (VB 0) /\ RefSem.bin_op (fun _ _ => 0) (fun _ => 0) BMod (VZ 7) (VB 0) = RErr /\
+  RefSem.bin_op (fun _ _ => 0) (fun _ => 0) BMod (VZ min64) (VZ (-1)) = ROk (VZ 0) /\
+  RefSem.bin_op (fun _ _ => 0) (fun _ => 0) BShl (VZ 1) (VZ 64) = ROk (VZ 0).
 Proof. repeat split; try (unfold wf, min64, max64; lia); vm_compute; reflexivity. Qed.
 
 Theorem C01_unary_lowering_correct :
@@ -106,7 +122,7 @@ Print Assumptions C01_for_lowering_correct.
 Example C01_for_nonvacuous :
   for_spec (list Z) (fun s => Some (257, s)) (fun s => Some (SigNext, s))
            (fun s v => match v with VB b => (s ++ [b])%list | _ => s end) true 1 10 254 []
-  = Some (XLeave (list Z) [255; 0; 1; 2]).
+  = Some (ForLoop.XLeave (list Z) [255; 0; 1; 2]).
 Proof. vm_compute. reflexivity. Qed.
 
 (* RefSem's counting-loop rule is that specification, unfolded once *)
@@ -139,3 +155,152 @@ Theorem C01_operator_enum_covered :
   map terop_name all_terops = gen_ternary.
 Proof. exact operators_cover. Qed.
 Print Assumptions C01_operator_enum_covered.
+
+(* ---- DESIGN stage 3: control flow over abstract sub-evaluators that may fail or diverge ---------------- *)
+
+(* und / oder: condbr + phi.  The right operand is evaluated exactly when RefSem evaluates it (the count is part
+   of the observation), the result and the state are RefSem's; [is_and] selects und / oder *)
+Theorem C01_shortcircuit_lowering_correct :
+  forall (St : Type) (ev_l ev_r : St -> ores St bool) (is_and : bool) (s : St),
+    sc_obs St (sc_step St ev_l ev_r is_and (sc_step St ev_l ev_r is_and (sc_step St ev_l ev_r is_and (sc_init St s))))
+    = Some (sc_spec St ev_l ev_r is_and s).
+Proof. exact shortcircuit_lowering_correct. Qed.
+Print Assumptions C01_shortcircuit_lowering_correct.
+
+(* falsch und <diverging operand> is falsch without touching the operand *)
+Example C01_shortcircuit_nonvacuous :
+  sc_spec nat (fun s => OVal false (S s)) (fun _ => ODiv) true 0%nat = (OVal false 1%nat, 0%nat) /\
+  sc_spec nat (fun s => OVal true (S s)) (fun s => OErr s) true 0%nat = (OErr 1%nat, 1%nat).
+Proof. split; reflexivity. Qed.
+
+(* a, falls c, ansonsten b: the condition, then only the chosen side *)
+Theorem C01_falls_lowering_correct :
+  forall (St V : Type) (ev_c : St -> ores St bool) (ev_a ev_b : St -> ores St V) (s : St),
+    fa_obs St V (fa_step St V ev_c ev_a ev_b (fa_step St V ev_c ev_a ev_b (fa_step St V ev_c ev_a ev_b (fa_init St V s))))
+    = Some (falls_spec St V ev_c ev_a ev_b s).
+Proof. exact falls_lowering_correct. Qed.
+Print Assumptions C01_falls_lowering_correct.
+
+Example C01_falls_nonvacuous :
+  falls_spec nat Z (fun s => OVal false s) (fun _ => ODiv) (fun s => OVal 7 s) 0%nat = (OVal 7 0%nat, 0%nat, 1%nat).
+Proof. reflexivity. Qed.
+
+(* Solange c, mache: ...   for every iteration count; break -> leave, continue -> next test, return, failure *)
+Theorem C01_while_lowering_correct :
+  forall (St : Type) (ev_c : St -> ores St bool) (body : St -> ores St bsig) (n : nat) (s : St) (r : xres St),
+    while_spec St ev_c body n s = Some r ->
+    exists k, w_final St r (w_steps St ev_c body k (WCond, s)).
+Proof. exact while_lowering_correct. Qed.
+Print Assumptions C01_while_lowering_correct.
+
+(* Mache: ... Solange c. *)
+Theorem C01_dowhile_lowering_correct :
+  forall (St : Type) (ev_c : St -> ores St bool) (body : St -> ores St bsig) (n : nat) (s : St) (r : xres St),
+    dowhile_spec St ev_c body n s = Some r ->
+    exists k, w_final St r (w_steps St ev_c body k (WBody, s)).
+Proof. exact dowhile_lowering_correct. Qed.
+Print Assumptions C01_dowhile_lowering_correct.
+
+(* counts down from 3; `Fahre fort` at 2, `Verlasse` at 1 *)
+Example C01_while_nonvacuous :
+  while_spec Z (fun s => OVal (0 <? s) s)
+    (fun s => if s =? 2 then OVal BCont (s - 1) else if s =? 1 then OVal BBreak 100 else OVal BNext (s - 1)) 10 3
+  = Some (XLeave 100).
+Proof. vm_compute. reflexivity. Qed.
+
+(* Wiederhole: ... n Mal.   The counter is the widened count (a Byte count is zero-extended, f5edfd1) *)
+Theorem C01_repeat_lowering_correct :
+  forall (St : Type) (body : St -> ores St bsig) (n : nat) (k : Z) (s : St) (r : xres St),
+    0 <= k <= max64 ->
+    repeat_spec St body n k s = Some r ->
+    exists j, r_final St r (r_steps St body j (RpCond, k mod 2^64, s)).
+Proof. exact repeat_lowering_correct. Qed.
+Print Assumptions C01_repeat_lowering_correct.
+
+Theorem C01_repeat_counter_widening :
+  forall v k, wf v -> to_i v = Some k -> repeat_counter v = Some (k mod 2^64).
+Proof. exact repeat_counter_ok. Qed.
+Print Assumptions C01_repeat_counter_widening.
+
+Example C01_repeat_nonvacuous :
+  0 <= 3 <= max64 /\ repeat_spec Z (fun s => OVal BNext (s + 1)) 10 3 0 = Some (XLeave 3) /\
+  wf (VB 200) /\ to_i (VB 200) = Some 200.
+Proof. repeat split; try (unfold wf, max64; lia); vm_compute; try reflexivity; intros C; discriminate C. Qed.
+
+(* for-each over a copied container given as (element, width) cells: width = element size for a list, number of
+   UTF-8 bytes for a Buchstabe of a Text.  The cursor walk visits exactly the elements in order; index variable,
+   break/continue/return/failure as in RefSem.loop_each *)
+Theorem C01_foreach_lowering_correct :
+  forall (St : Type) (body : St -> ores St bsig) (set_var : St -> value -> St) (has_idx : bool)
+         (get_idx : St -> Z) (set_idx : St -> Z -> St),
+    (forall s, min64 <= get_idx s <= max64) ->
+    forall (es : list (value * Z)) (s : St),
+      widths_pos es ->
+      exists k, e_final St (each_spec St body set_var has_idx get_idx set_idx es s)
+                  (e_steps St body set_var has_idx get_idx set_idx es k (ECond, 0, s)).
+Proof. intros St body set_var has_idx get_idx set_idx H es s W. apply foreach_stmt_lowering_correct; assumption. Qed.
+Print Assumptions C01_foreach_lowering_correct.
+
+Theorem C01_foreach_instances :
+  (forall size vs, 0 < size -> widths_pos (list_cells size vs)) /\ (forall cs, widths_pos (text_cells cs)).
+Proof. exact (conj list_cells_pos text_cells_pos). Qed.
+Print Assumptions C01_foreach_instances.
+
+(* the Text "a€" (1 + 3 bytes) with an index variable: the body sees a@1, €@2 *)
+Example C01_foreach_nonvacuous :
+  each_spec (list (Z * Z) * Z) (fun s => OVal BNext s)
+            (fun s v => match v with VC c => ((fst s ++ [(c, snd s)])%list, snd s) | _ => s end) true snd (fun s i => (fst s, i))
+            (text_cells [97; 8364]) ([], 1)
+  = XLeave ([(97, 1); (8364, 2)], 3).
+Proof. vm_compute. reflexivity. Qed.
+
+(* counting loop with a Kommazahl counter: step and end value of any numeric type are cast to double (37dd3f7) *)
+Theorem C01_forkomma_lowering_correct :
+  forall (St : Type) (eval_to : St -> ores St value) (body : St -> ores St bsig) (set_var : St -> value -> St)
+         (stp : value),
+    (forall s tv s1, eval_to s = OVal tv s1 -> numeric tv) ->
+    forall stpf, as_f stp = Some stpf -> numeric stp ->
+    forall (n : nat) (i : Z) (s : St) (r : xres St),
+      fork_spec St eval_to body set_var n stpf i s = Some r ->
+      exists k, k_final St r (k_steps St eval_to body set_var stpf k (KCond, i, s)).
+Proof. intros St eval_to body set_var stp H stpf H1 H2 n i s r H3. eapply forkomma_lowering_correct; eauto. Qed.
+Print Assumptions C01_forkomma_lowering_correct.
+
+Example C01_forkomma_nonvacuous :
+  numeric (VZ 2) /\ as_f (VZ 2) = Some (f_of_Z 2) /\
+  fork_spec nat (fun s => OVal (VB 3) s) (fun s => OVal BNext (S s)) (fun s _ => s) 10 (f_of_Z 2) (f_of_Z 0) 0%nat
+  = Some (XLeave 2%nat).
+Proof. repeat split; try (unfold numeric, wf, min64, max64; lia); vm_compute; reflexivity. Qed.
+
+(* RefSem's evaluator is these specifications with eval / exec_block as the parameters (one unfolding each) *)
+Theorem C01_refsem_control_rules :
+  forall pow log10 fmt ftab n genv en s,
+  (forall a b, eval pow log10 fmt ftab (S n) genv en s (EBin BAnd a b) =
+     rbind (eval pow log10 fmt ftab n genv en s a) (fun v s =>
+       match v with
+       | VW false => Ok (VW false) s
+       | VW true => rbind (eval pow log10 fmt ftab n genv en s b) (fun w s => match w with VW _ => Ok w s | _ => bad s end)
+       | _ => bad s
+       end)) /\
+  (forall a c b, eval pow log10 fmt ftab (S n) genv en s (ETer TFalls a c b) =
+     rbind (eval pow log10 fmt ftab n genv en s c) (fun cv s =>
+       match cv with
+       | VW true => eval pow log10 fmt ftab n genv en s a
+       | VW false => eval pow log10 fmt ftab n genv en s b
+       | _ => bad s
+       end)) /\
+  (forall k body, loop_repeat pow log10 fmt ftab (S n) genv en s k body =
+     if k <=? 0 then Ok FNext s else
+     rbind (exec_block pow log10 fmt ftab n genv en s body) (fun fl s =>
+       match fl with
+       | FBreak => Ok FNext s
+       | FRet v => Ok (FRet v) s
+       | _ => loop_repeat pow log10 fmt ftab n genv en s (k - 1) body
+       end)).
+Proof.
+  intros. split; [|split]; intros.
+  - apply refsem_and_rule.
+  - apply refsem_falls_rule.
+  - apply refsem_repeat_rule.
+Qed.
+Print Assumptions C01_refsem_control_rules.
